@@ -12,7 +12,17 @@ def load_table():
     spec = importlib.util.spec_from_file_location("pmh_mutant_table", p)
     mod = importlib.util.module_from_spec(spec)
     spec.loader.exec_module(mod)
-    return mod.M
+    table = list(mod.M)
+    # behaviour-preserving refactorings written independently of the rules (benign/<name>/patch.diff): every check must
+    # stay silent on each of them
+    bdir = os.path.join(engine.VERIF, "benign")
+    for name in sorted(os.listdir(bdir)) if os.path.isdir(bdir) else []:
+        pf = os.path.join(bdir, name, "patch.diff")
+        if os.path.exists(pf):
+            touched = [l[6:].strip() for l in open(pf) if l.startswith("+++ b/")]
+            table.append({"prop": "*", "kind": "benign", "name": "refactoring:" + name, "rule": None, "patch": pf,
+                          "file": touched[0] if touched else "src/"})
+    return table
 
 
 def run_one(args):
@@ -30,6 +40,10 @@ def run_one(args):
                     for a, b in mt["rename"].items():
                         s_ = re.sub(r"(?<!\w)(?<![^.]\.)%s(?!\w)" % re.escape(a), b, s_)
                     open(p_, "w").write(s_)
+        elif mt.get("patch"):
+            ok_, _msg = scratch.apply_patch(d, mt["patch"])
+            if not ok_:
+                return (mt["name"], "skipped", "patch does not apply (the tree changed)", [])
         elif not scratch.apply_edit(d, mt["file"], mt["old"], mt["new"], mt.get("count", 1)):
             return (mt["name"], "skipped", "context not found (the tree changed)", [])
         try:
@@ -56,7 +70,7 @@ def run(ctx, prop, src=None):
     if not table:
         ctx.extra["mutants"] = res
         return
-    jobs = [(prop, mt, i % 4, src) for i, mt in enumerate(table)]
+    jobs = [(prop, mt, i % 6, src) for i, mt in enumerate(table)]
     # one worker per slot so that two scratch copies never share a target directory at the same time
     by_slot = {}
     for j in jobs:
@@ -66,7 +80,7 @@ def run(ctx, prop, src=None):
     def run_slot(js):
         return [run_one(j) for j in js]
 
-    with cf.ThreadPoolExecutor(max_workers=4) as ex:
+    with cf.ThreadPoolExecutor(max_workers=6) as ex:
         for r in ex.map(run_slot, by_slot.values()):
             out.extend(r)
     byname = {mt["name"]: mt for mt in table}
